@@ -557,6 +557,7 @@ Fixpoint steps (q : quirks) (regs : list trie) (os : list sop) : list trie * lis
            | (1 (cp ...))                   -> (0 path) | (1 e)                  parse; e: 0 close 1 open 2 int()
            | (2 path)                       -> as parse                          parse(path_str(path))
            | (3 op p q)                     -> (0 x) | (1 e)                     arithmetic / comparison
+           | (6 path ((obs q) ...))         -> (answer ...)                       read-only observers on one object
            | (5 dollar (sop ...))           -> ((out ...) ((paths bool) ...))    KeyPathSet machine; final state of the 3 registers *)
 Definition ekey (k : key) : tr := match k with KStr s => L [I 0%Z; estr s] | KInt z => L [I 1%Z; I z] end.
 Definition epath (p : list key) : tr := elist ekey p.
@@ -645,6 +646,28 @@ Definition run_set (dollar : bool) (os : list sop) : tr :=
      if crashed then L []
      else elist (fun t => if iter_ok (TDict t) then L [elist epath (paths t); ebool (negb (is_nil t))] else L [I (-2)%Z]) regs].
 
+(* read-only observers applied one after the other to the SAME KeyPath object: every answer is a function of the keys
+   alone (whatever was asked before) *)
+Definition run_obs (p : list key) (o : Z) (q : list key) : tr :=
+  let s x := L [I 0%Z; estr x] in
+  let b x := L [I 1%Z; ebool x] in
+  match o with
+  | 0%Z => s (fmt_go true true p)                       (* path_str(True) *)
+  | 1%Z => s (fmt_go false true p)                      (* path_str(False) *)
+  | 2%Z | 3%Z | 4%Z | 5%Z => s (format p)               (* .path, str, repr, format() *)
+  | 6%Z => b true                                       (* hash(p) == hash(a fresh equal path) *)
+  | 7%Z => b (str_eqb (format p) (format q))            (* p == str(q) *)
+  | 8%Z => b (path_lt p q)                              (* p < q *)
+  | 9%Z => b (match str_cmp (format p) (format q) with Lt => true | _ => false end)   (* p < str(q) *)
+  | 10%Z => L [I 2%Z; enat (length p)]                  (* depth *)
+  | 11%Z => match path_parent p with Some r => L [I 3%Z; epath r] | None => L [I 4%Z] end
+  | 12%Z => L [I 3%Z; epath p]                          (* keys *)
+  | 13%Z => b (path_eqb p q)                            (* p == q *)
+  | 14%Z => L [I 3%Z; epath (p ++ q)]                   (* p + q *)
+  | 15%Z => b (is_nil p)                                (* is_root *)
+  | _ => ebad
+  end.
+
 Definition run_kp (c : tr) : tr :=
   match c with
   | L [I 0%Z; pr; p] =>
@@ -658,5 +681,13 @@ Definition run_kp (c : tr) : tr :=
       match dpath p, dpath q with Some a, Some b => run_arith op a b | _, _ => ebad end
   | L [I 5%Z; d; os] =>
       match dbool d, dlist dsop os with Some b, Some l => run_set b l | _, _ => ebad end
+  | L [I 6%Z; p; L obs] =>
+      match dpath p with
+      | Some ks => L (map (fun ob => match ob with
+                                     | L [I o; q] => match dpath q with Some qs => run_obs ks o qs | None => ebad end
+                                     | _ => ebad
+                                     end) obs)
+      | None => ebad
+      end
   | _ => ebad
   end.
